@@ -103,6 +103,8 @@ def install(gate, cfg):
 
         def __getattr__(self, n):
             f = getattr(real_os, n)
+            if n == 'getpid' and cfg.get('fixed_pid') is not None:
+                return lambda: cfg['fixed_pid']        # "the pid of an earlier (crashed) writer is given to this process"
             if n in ('remove', 'makedirs', 'replace'):
                 def w(*a, **k):
                     gate(n)
